@@ -61,15 +61,15 @@ fn std(f: u8, t: u8, cap: Option<Capture>) -> ChessMove {
 /// file letter if no rival shares the file; else the rank digit if no rival shares the rank; else file
 /// letter + rank digit. Consequently two different origins never receive the same disambiguator.
 fn c13_dis_piece(n: usize) {
-    let f: u8 = kani::any();
-    let t: u8 = kani::any();
-    let o: [u8; 3] = kani::any();
+    let f: u8 = crate::verif_ref::vany();
+    let t: u8 = crate::verif_ref::vany();
+    let o: [u8; 3] = crate::verif_ref::vany();
     kani::assume(f < 64 && t < 64 && o[0] < 64 && o[1] < 64 && o[2] < 64);
     kani::assume(f != t && o[0] != t && o[1] != t && o[2] != t);
     kani::assume(o[0] != f && o[1] != f && o[2] != f && o[0] != o[1] && o[0] != o[2] && o[1] != o[2]);
-    let k: u8 = kani::any();
+    let k: u8 = crate::verif_ref::vany();
     kani::assume(k >= 1 && k <= 5);
-    let cap: Option<Capture> = if kani::any() { Some(Capture(Piece::Pawn)) } else { None };
+    let cap: Option<Capture> = if crate::verif_ref::vany() { Some(Capture(Piece::Pawn)) } else { None };
     let m = std(f, t, cap);
     let mut amb = ChessMoveList::new();
     let mut i = 0;
@@ -123,10 +123,10 @@ dis_harness!(c13_dis_piece_3, 3);
 /// pawn captures are always prefixed by the origin file; pawn pushes never disambiguated.
 /// kind (concrete per harness): 0 standard capture, 1 capturing promotion, 2 en passant
 fn c13_dis_pawn(kind: u8) {
-    let f: u8 = kani::any();
-    let t: u8 = kani::any();
+    let f: u8 = crate::verif_ref::vany();
+    let t: u8 = crate::verif_ref::vany();
     kani::assume(f < 64 && t < 64 && f != t);
-    let capk: u8 = kani::any();
+    let capk: u8 = crate::verif_ref::vany();
     kani::assume(capk < 5);
     let cap = Some(Capture(piece_of(capk as usize)));
     let from = Bitboard(rf::bit(f));
@@ -173,10 +173,10 @@ dis_pawn_harness!(c13_dis_pawn_ep, 2);
 #[kani::stub(::smallvec::SmallVec::try_grow, crate::move_generator::verif_no_grow)]
 fn c13_sel() {
     let x = any_disjoint();
-    let a = any_aux(kani::any());
+    let a = any_aux(crate::verif_ref::vany());
     let mut board = Board::verif_from_raw(&x, &a);
-    let f: [u8; 3] = kani::any();
-    let t: [u8; 3] = kani::any();
+    let f: [u8; 3] = crate::verif_ref::vany();
+    let t: [u8; 3] = crate::verif_ref::vany();
     let mut i = 0;
     while i < 3 {
         kani::assume(f[i] < 64 && t[i] < 64 && f[i] != t[i]);
@@ -198,7 +198,7 @@ fn c13_sel() {
     let rival = |i: usize| f[i] != f[0] && t[i] == t[0] && kind_on(f[i]) == kind_on(f[0]);
     let want = rival(1) as usize + rival(2) as usize;
     assert!(got.len() == want, "exactly the rivals are selected (never the move itself)");
-    let j: usize = kani::any();
+    let j: usize = crate::verif_ref::vany();
     if j < got.len() {
         let g = &got[j];
         assert!((rival(1) && *g == cands[1]) || (rival(2) && *g == cands[2]));
@@ -216,18 +216,18 @@ fn c13_sel() {
 #[kani::proof]
 #[kani::unwind(8)]
 fn c13_parts() {
-    let f: u8 = kani::any();
-    let t: u8 = kani::any();
+    let f: u8 = crate::verif_ref::vany();
+    let t: u8 = crate::verif_ref::vany();
     kani::assume(f < 64 && t < 64 && f != t);
-    let capk: u8 = kani::any();
+    let capk: u8 = crate::verif_ref::vany();
     kani::assume(capk <= 5);
-    let has_cap: bool = kani::any();
+    let has_cap: bool = crate::verif_ref::vany();
     let cap = if has_cap { Some(Capture(piece_of(capk as usize))) } else { None };
     let mut m = std(f, t, cap);
     assert!(get_capture_char(&m).as_bytes() == if has_cap { b"x" as &[u8] } else { b"" as &[u8] }, "'x' exactly for captures");
     let ep = ChessMove::EnPassant(EnPassantChessMove::new(Bitboard(rf::bit(f)), Bitboard(rf::bit(t))));
     assert!(get_capture_char(&ep).as_bytes() == b"x", "en passant is a capture");
-    let e: u8 = kani::any();
+    let e: u8 = crate::verif_ref::vany();
     kani::assume(e < 4);
     let eff = match e {
         0 => ChessMoveEffect::None,
@@ -242,7 +242,7 @@ fn c13_parts() {
         2 => assert!(suffix == b"#"),
         _ => assert!(suffix.len() == 0),
     }
-    let white: bool = kani::any();
+    let white: bool = crate::verif_ref::vany();
     let ks = CastleChessMove::castle_kingside(color(white));
     let qs = CastleChessMove::castle_queenside(color(white));
     let a = algebraic_castle(&ks);
